@@ -82,17 +82,17 @@ func pointsExt(points []byte) Ext {
 
 // extension orders the heuristics look for, to get past their first gates
 var extOrders = [][]uint16{
-	{0, 23, 65281, 10, 11, 35, 16, 5, 13},               // firefox
-	{0, 23, 65281, 10, 11, 35, 16, 5, 51, 43, 13, 45, 28, 21}, // firefox 60+
-	{65281, 0, 23, 35, 13, 5, 18, 16, 30032, 11, 10},     // chrome
+	{0, 23, 65281, 10, 11, 35, 16, 5, 13},                            // firefox
+	{0, 23, 65281, 10, 11, 35, 16, 5, 51, 43, 13, 45, 28, 21},        // firefox 60+
+	{65281, 0, 23, 35, 13, 5, 18, 16, 30032, 11, 10},                 // chrome
 	{0x0a0a, 65281, 0, 23, 35, 13, 5, 18, 16, 30032, 11, 10, 0x1a1a}, // chrome with GREASE
-	{0, 5, 10, 11, 13, 35, 23, 65281},                    // edge
-	{0, 5, 10},                                          // short: ends right after 5, 10
+	{0, 5, 10, 11, 13, 35, 23, 65281},                                // edge
+	{0, 5, 10},                                                       // short: ends right after 5, 10
 	{0, 5},
 	{5},
-	{65281, 0, 23, 13, 5, 13172, 18, 16, 11, 10},         // safari
-	{0, 23, 65281, 10, 11, 16, 5, 13, 21},                // tor-ish
-	{15, 0, 10},                                         // heartbeat
+	{65281, 0, 23, 13, 5, 13172, 18, 16, 11, 10}, // safari
+	{0, 23, 65281, 10, 11, 16, 5, 13, 21},        // tor-ish
+	{15, 0, 10},                                  // heartbeat
 	{},
 }
 
